@@ -81,10 +81,94 @@ theorem getF_length_le {r : Nat} {q : Path} {F : List PT} {x : PT} (h : getF (r 
     have := size_pos x
     omega
 
+/-- the objects met on the way from the root of `t` down the path, root first -/
+def nodesAlongT : Path → PT → List PT
+  | [], t => [t]
+  | j :: q, t => t :: (match t.kids[j]? with
+    | some k => nodesAlongT q k
+    | none => [])
+
+def nodesAlongF : Path → List PT → List PT
+  | [], _ => []
+  | r :: q, F => match F[r]? with
+    | some t => nodesAlongT q t
+    | none => []
+
+theorem nodesAlongT_snoc : ∀ (q : Path) (j : Nat) (t x : PT), getT (q ++ [j]) t = some x →
+    nodesAlongT (q ++ [j]) t = nodesAlongT q t ++ [x]
+  | [], j, t, x, h => by
+    simp only [List.nil_append, getT] at h
+    cases hk : t.kids[j]? with
+    | none => simp [hk] at h
+    | some k =>
+      simp only [hk, Option.some.injEq] at h; subst h
+      simp [nodesAlongT, hk]
+  | i :: q, j, t, x, h => by
+    simp only [List.cons_append, getT] at h
+    cases hk : t.kids[i]? with
+    | none => simp [hk] at h
+    | some k =>
+      simp only [hk] at h
+      simp [nodesAlongT, hk, nodesAlongT_snoc q j k x h]
+
+theorem nodesAlongF_snoc (r : Nat) (q : Path) (j : Nat) (F : List PT) (x : PT)
+    (h : getF (r :: (q ++ [j])) F = some x) :
+    nodesAlongF (r :: (q ++ [j])) F = nodesAlongF (r :: q) F ++ [x] := by
+  simp only [getF] at h
+  simp only [nodesAlongF]
+  cases ht : F[r]? with
+  | none => simp [ht] at h
+  | some t =>
+    simp only [ht] at h
+    exact nodesAlongT_snoc q j t x h
+
+theorem map_val_nodesAlongT : ∀ (q : Path) (t : PT), (nodesAlongT q t).map PT.val = RT.valsAlongT q (abs t)
+  | [], t => by simp [nodesAlongT, RT.valsAlongT]
+  | j :: q, t => by
+    simp only [nodesAlongT, RT.valsAlongT, List.map_cons, abs_val, abs_kids, List.getElem?_map]
+    cases t.kids[j]? with
+    | none => simp
+    | some k => simp [map_val_nodesAlongT q k]
+
+theorem map_val_nodesAlongF (p : Path) (F : List PT) : (nodesAlongF p F).map PT.val = RT.valsAlongF p (absF F) := by
+  cases p with
+  | nil => rfl
+  | cons r q =>
+    simp only [nodesAlongF, RT.valsAlongF, absF, List.getElem?_map]
+    cases F[r]? with
+    | none => simp
+    | some t => simp [map_val_nodesAlongT]
+
+/-- the `k`-th object on the way down is the object at the prefix of length `k + 1` of the path -/
+theorem nodesAlongT_getElem : ∀ (q : Path) (t x : PT), getT q t = some x → ∀ k, k ≤ q.length →
+    (nodesAlongT q t)[k]? = getT (q.take k) t
+  | [], t, x, _, k, hk => by
+    have : k = 0 := by simpa using hk
+    subst this; simp [nodesAlongT, getT]
+  | j :: q, t, x, h, 0, _ => by simp [nodesAlongT, getT]
+  | j :: q, t, x, h, k + 1, hk => by
+    simp only [getT] at h
+    cases hj : t.kids[j]? with
+    | none => simp [hj] at h
+    | some c =>
+      simp only [hj] at h
+      simp only [nodesAlongT, hj, List.getElem?_cons_succ, List.take_succ_cons, getT]
+      exact nodesAlongT_getElem q c x h k (by simpa using hk)
+
+theorem nodesAlongT_length : ∀ (q : Path) (t x : PT), getT q t = some x → (nodesAlongT q t).length = q.length + 1
+  | [], t, x, _ => by simp [nodesAlongT]
+  | j :: q, t, x, h => by
+    simp only [getT] at h
+    cases hk : t.kids[j]? with
+    | none => simp [hk] at h
+    | some k =>
+      simp only [hk] at h
+      simp [nodesAlongT, hk, nodesAlongT_length q k x h]
+
 theorem toRootLoop_eq {F : List PT} (hu : ∀ i, cntL i F ≤ 1) (hr : Roots F) :
-    ∀ (n : Nat) (q : Path) (r : Nat) (x : PT) (acc : List Int) (f : Nat), q.length = n →
+    ∀ (n : Nat) (q : Path) (r : Nat) (x : PT) (acc : List PT) (f : Nat), q.length = n →
       getF (r :: q) F = some x → q.length + 1 ≤ f →
-      toRootLoop F f x acc = .ok (acc ++ (RT.valsAlongF (r :: q) (absF F)).reverse)
+      toRootLoop F f x acc = .ok (acc ++ (nodesAlongF (r :: q) F).reverse)
   | 0, q, r, x, acc, f, hn, hg, hf => by
     have hq : q = [] := List.eq_nil_of_length_eq_zero hn
     subst hq
@@ -96,7 +180,7 @@ theorem toRootLoop_eq {F : List PT} (hu : ∀ i, cntL i F ≤ 1) (hr : Roots F) 
     | some t =>
       simp only [ht, getT, Option.some.injEq] at hg; subst hg
       have hp := (hr t (List.mem_of_getElem? ht)).1
-      simp [toRootLoop, hp, RT.valsAlongF, absF, ht, RT.valsAlongT]
+      simp [toRootLoop, hp, nodesAlongF, ht, nodesAlongT]
   | n + 1, q, r, x, acc, f, hn, hg, hf => by
     rcases List.eq_nil_or_concat q with rfl | ⟨q', j, rfl⟩
     · simp at hn
@@ -110,22 +194,26 @@ theorem toRootLoop_eq {F : List PT} (hu : ∀ i, cntL i F ≤ 1) (hr : Roots F) 
         simp only [ho, Option.bind_some] at hgs
         have hxp := (kidsOK hr ho x (List.mem_of_getElem? hgs)).1
         have hfind := findF_of_get hu ho
-        have hx' : RT.getF (r :: (q' ++ [j])) (absF F) = some (abs x) := by rw [abs_getF, hg]; rfl
-        rw [RT.valsAlongF_snoc r q' j (absF F) (abs x) hx']
+        rw [nodesAlongF_snoc r q' j F x hg]
         simp only [List.length_append, List.length_cons, List.length_nil] at hn hf
-        have ih := toRootLoop_eq hu hr n q' r o (acc ++ [x.val]) f' (by omega) ho (by omega)
+        have ih := toRootLoop_eq hu hr n q' r o (acc ++ [x]) f' (by omega) ho (by omega)
         simp [toRootLoop, hxp, hfind, ih]
 
-/-- `to_root` from the node at path `p`: its value, then the values of its ancestors up to the root -/
-theorem toRoot_eq {F : List PT} (hu : ∀ i, cntL i F ≤ 1) (hr : Roots F) {p : Path} {x : PT}
-    (hg : getF p F = some x) : toRoot F x = .ok (RT.ancestors p (absF F)) := by
+/-- `to_root` from the node at path `p` visits that object, then the objects at the shorter and shorter prefixes of `p` -/
+theorem toRootNodes_eq {F : List PT} (hu : ∀ i, cntL i F ≤ 1) (hr : Roots F) {p : Path} {x : PT}
+    (hg : getF p F = some x) : toRootNodes F x = .ok (nodesAlongF p F).reverse := by
   cases p with
   | nil => simp [getF] at hg
   | cons r q =>
     have := getF_length_le hg
-    unfold toRoot RT.ancestors
+    unfold toRootNodes
     rw [toRootLoop_eq hu hr q.length q r x [] _ rfl hg (by omega)]
     simp
+
+/-- `to_root` from the node at path `p`: its value, then the values of its ancestors up to the root -/
+theorem toRoot_eq {F : List PT} (hu : ∀ i, cntL i F ≤ 1) (hr : Roots F) {p : Path} {x : PT}
+    (hg : getF p F = some x) : toRoot F x = .ok (RT.ancestors p (absF F)) := by
+  simp [toRoot, toRootNodes_eq hu hr hg, Except.map, RT.ancestors, ← map_val_nodesAlongF]
 
 theorem RT.valsAlongT_length : ∀ (q : Path) (t x : RT), RT.getT q t = some x → (RT.valsAlongT q t).length = q.length + 1
   | [], t, x, _ => by simp [RT.valsAlongT]
